@@ -64,7 +64,7 @@ func gen(t *rapid.T) Case {
 	if cs == 0 {
 		cs = 64
 	}
-	c.Archive = tarmodel.Gen(t, tarmodel.GenOpts{MaxEntries: 12, ChunkSize: cs, Hardlinks: true, Devices: true, Dups: c.Source == "builder", Spellings: c.Source == "builder", Xattrs: true, RootEntry: c.Source == "builder", BigIDs: true, ManyChunks: true})
+	c.Archive = tarmodel.Gen(t, tarmodel.GenOpts{MaxEntries: 12, ChunkSize: cs, Hardlinks: true, Devices: true, Dups: c.Source == "builder", Spellings: c.Source == "builder", Xattrs: true, RootEntry: c.Source == "builder", BigIDs: true, ManyChunks: true, ExtremeTimes: true})
 	if c.Source == "thirdparty" {
 		c.Lib = Liberties{
 			DropDirEntries: rapid.Bool().Draw(t, "dropdirs"),
